@@ -880,13 +880,11 @@ func gridCases(alu, fmtn string, op int, r *vh.Rng) []Case {
 		if sop1Src64[op] {
 			for _, a := range gridVals64(r) {
 				for _, e := range gridVals64(r) {
-					for scc := uint8(0); scc < 2; scc++ {
-						c := gridBase(alu, r, scc)
-						c.Pre.EXEC = e
-						c.s64(10, a)
-						c.Words = []uint32{encSOP1(op, 14, 10)}
-						add(c)
-					}
+					c := gridBase(alu, r, uint8(r.Intn(2)))
+					c.Pre.EXEC = e
+					c.s64(10, a)
+					c.Words = []uint32{encSOP1(op, 14, 10)}
+					add(c)
 				}
 			}
 		} else {
